@@ -86,11 +86,15 @@ func expect(d RpDelivered) (answered bool, rid uint16, body []byte, bodyKnown bo
 // of the run is skipped - every further conversation would wait 4 s per barrier
 var timeouts int
 
+// how often each direct-oracle signature fired in this run (written to the evidence as extra.violations_by_signature)
+var sigCount = map[string]int{}
+
 func direct(c *Ctx, mode, req string, items []RpItem, r *RpResult) {
 	if r.Timeout != "" {
 		timeouts++
 	}
 	viol := func(sig, what, obs, want string) {
+		sigCount["C06/"+sig]++ // the true number per signature (the evidence keeps at most 12 records of each)
 		c.Violate(Violation{Signature: "C06/" + sig, What: what, Input: req, Observed: Trunc(obs, 600), Required: Trunc(want, 600)})
 	}
 	if r.Timeout != "" {
@@ -203,6 +207,13 @@ func direct(c *Ctx, mode, req string, items []RpItem, r *RpResult) {
 				if !present {
 					if w.opt == "1003" {
 						absorbed = append(absorbed, w.what)
+					} else {
+						// a short 0x0801 that got NO reply: not what the property says (it wants a reply carrying the id),
+						// not what the code does (it answers with a stale id); accepted because it is inside the class of
+						// the recorded finding C06/0801-short-body (a repair that makes ReplyBody honour the Parse error
+						// answers nothing) - counted, so that the evidence shows if it ever happens
+						c.Count("short 0x0801 not answered (accepted: class of finding C06/0801-short-body)")
+						sigCount["(accepted) short 0x0801 not answered"]++
 					}
 					continue
 				}
@@ -646,6 +657,7 @@ func c06(c *Ctx) {
 			}
 		}
 		if !strings.HasPrefix(ans, want) {
+			sigCount["C06/reply-table"]++
 			c.Violate(Violation{Signature: "C06/reply-table", What: "HasReply/ReplyProtocol of the registered type differ from the standard's table",
 				Input: fmt.Sprintf("rtable %d", id), Observed: ans, Required: want})
 		}
@@ -726,7 +738,7 @@ func c06(c *Ctx) {
 		// two uploads: 36 bytes and more, then one whose body is too short for Parse
 		u1, u2 := g.frame(0x0801), g.frame(0x0801)
 		u1.BCD = g.uniquePhone(0x98, u1.Ver == 1)
-		u1.Body, u2.Body = g.rbytes(36+g.rng.Intn(20)), g.rbytes([]int{4 + g.rng.Intn(32), g.rng.Intn(4)}[rep%2])
+		u1.Body, u2.Body = g.rbytes(36+g.rng.Intn(20)), g.rbytes([]int{4 + g.rng.Intn(32), g.rng.Intn(4)}[rep/2]) // length class by rep/2, server mode by rep%2: all four combinations
 		run([]string{"A", "B"}[rep%2], []string{"F" + Hx(u1.Wire()), "F" + Hx(u2.Wire()), g.barrier()}, 0)
 	}
 	c.Count("small scope")
@@ -794,6 +806,7 @@ func c06(c *Ctx) {
 			c.Count("messages:" + bucket(nm))
 		}
 	}
+	c.Extra["violations_by_signature"] = sigCount
 }
 
 func bucket(n int) string {
